@@ -92,22 +92,24 @@ structure Acc where
   failAt : Option Nat
   failed : Bool
 
-/-- processNewBlocks(longestChain): New for every not-yet-sent block, marking it sent and moving lastBlockSent -/
+/-- one block of processNewBlocks: New for a not-yet-sent block, marking it sent and moving lastBlockSent -/
+def newStep (cfg : Config) (head : Ref) (a : Acc) (e : Entry) : Acc :=
+  if a.failed then a
+  else if isSent a.st.db e.blk.id then a
+  else
+    let doSend := cfg.matches .new
+    let ev : Event := ⟨.new, e.blk, head, cursorLIB a.st, none, 0, 0⟩
+    let (failedNow, failAt') := if doSend then
+        (match a.failAt with | some 0 => (true, none) | some (k+1) => (false, some k) | none => (false, none))
+      else (false, a.failAt)
+    let evs := if doSend then a.evs ++ [ev] else a.evs
+    if failedNow then { a with evs := evs, failed := true, failAt := failAt' }
+    else { st := { a.st with db := a.st.db.markSent e.blk.id, lastSent := some e.blk }, evs := evs,
+           failAt := failAt', failed := false }
+
+/-- processNewBlocks(longestChain) -/
 def processNew (cfg : Config) (a : Acc) (chain : List Entry) : Acc :=
-  let head := (chain.getLast?.map (·.blk.ref)).getD Ref.empty
-  chain.foldl (fun a e =>
-    if a.failed then a
-    else if isSent a.st.db e.blk.id then a
-    else
-      let doSend := cfg.matches .new
-      let ev : Event := ⟨.new, e.blk, head, cursorLIB a.st, none, 0, 0⟩
-      let (failedNow, failAt') := if doSend then
-          (match a.failAt with | some 0 => (true, none) | some (k+1) => (false, some k) | none => (false, none))
-        else (false, a.failAt)
-      let evs := if doSend then a.evs ++ [ev] else a.evs
-      if failedNow then { a with evs := evs, failed := true, failAt := failAt' }
-      else { st := { a.st with db := a.st.db.markSent e.blk.id, lastSent := some e.blk }, evs := evs,
-             failAt := failAt', failed := false }) a
+  chain.foldl (newStep cfg ((chain.getLast?.map (·.blk.ref)).getD Ref.empty)) a
 
 def phase (a : Acc) (evs : List Event) : Acc :=
   if a.failed then a else
@@ -138,7 +140,7 @@ def finish (a : Acc) : FState × List Event × Result :=
 
 /-- processInitialInclusiveIrreversibleBlock(blk, obj, sendAsNew = true). After the fix the block is
     linked here (no-op when it already is); the fresh ForkableBlock `fb` is the DB object only when newly added. -/
-def processInitialInclusive (cfg : Config) (s : FState) (b : Blk) (failAt : Option Nat) : FState × List Event × Result :=
+def initialAcc (cfg : Config) (s : FState) (b : Blk) (failAt : Option Nat) : Acc :=
   let (db1, ex) := s.db.addLink b
   let newly := !ex && !(b.id == b.parent || b.id == "")
   let s := { s with db := db1 }
@@ -146,67 +148,103 @@ def processInitialInclusive (cfg : Config) (s : FState) (b : Blk) (failAt : Opti
   let doSend := cfg.matches .new
   let ev : Event := ⟨.new, b, b.ref, cursorLIB s, none, 0, 0⟩
   let a := if doSend then phase a [ev] else a
-  if a.failed then finish a else
+  if a.failed then a else
   let a := { a with st := { a.st with lastSent := some b, db := if newly then a.st.db.markSent b.id else a.st.db } }
-  let a := processIrr cfg a [⟨b, true⟩] b.ref
-  finish a
+  processIrr cfg a [⟨b, true⟩] b.ref
 
-/-- `Forkable.ProcessBlock` -/
-def processBlock (cfg : Config) (s : FState) (b : Blk) (failAt : Option Nat) : FState × List Event × Result :=
-  if b.id == b.parent then (s, [], .errInvalid)
-  else if b.num < s.db.libRef.num && s.lastSent.isSome then (s, [], .ok)
-  else
-  let trig := triggers cfg s b
-  if s.includeInit && s.lastSent.isNone && b.id == s.db.libRef.id then processInitialInclusive cfg s b failAt
-  else
-  -- undo/redo segments are computed BEFORE the link is added
-  let sw : Option (List Entry × List Entry × Option Ref) :=
-    if cfg.matches .undo && trig then
-      match s.lastSent with
-      | some l => sentChainSwitch s.db l.id b.parent
-      | none => some ([], [], none)
-    else some ([], [], none)
-  match sw with
-  | none => (s, [], .errInvalid)     -- Go would panic here (unreachable on well-formed states; see Inv)
-  | some (undos, redos, junction) =>
-  let (db1, exists_) := s.db.addLink b
-  if exists_ then (s, [], .ok)
-  else
-  let s1 : FState := { s with db := db1 }
-  -- LIB discovery
-  let hadLIB := s1.db.hasLIB
-  let s2 : FState := if hadLIB then s1 else { s1 with db := s1.db.setLIB cfg.fsb b.ref b.lib }
-  if !hadLIB && s2.db.hasLIB && s2.db.libRef.num == b.num then processInitialInclusive cfg s2 b failAt
-  else
-  let firstIrr : Option Entry := if !hadLIB && s2.db.hasLIB then s2.db.find s2.db.libRef.id else none
-  if !hadLIB && !s2.db.hasLIB && cfg.hold then (s2, [], .ok)
-  else
-  let chain := computeLongestChain cfg s2 b
-  let s3 : FState := { s2 with cache := chain }
-  match chain with
-  | none | some [] => (s3, [], .ok)
-  | some lc =>
-  if !trig then (s3, [], .ok) else
-  let a : Acc := ⟨s3, [], failAt, false⟩
-  let a := if cfg.matches .undo then phase a (mkEvents .undo undos b.ref (cursorLIB s3) junction) else a
-  let a := if cfg.matches .new then phase a (mkEvents .new redos b.ref (cursorLIB s3) none) else a
-  let a := processNew cfg a lc
-  if a.failed then finish a else
-  match a.st.lastSent with
-  | none => finish a
-  | some last =>
-  if !a.st.db.hasLIB then finish a else
-  let libRef := a.st.db.blockInChain last.ref last.lib
-  if libRef.id == "" then finish a else
+def processInitialInclusive (cfg : Config) (s : FState) (b : Blk) (failAt : Option Nat) : FState × List Event × Result :=
+  finish (initialAcc cfg s b failAt)
+
+/-- the block found as LIB by discovery is announced after the segment -/
+def withFirst (firstIrr : Option Entry) (seg : List Entry) : List Entry :=
+  match firstIrr with | some f => seg ++ [f] | none => seg
+
+/-- announce the irreversible segment up to `libRef`, move the LIB there, purge, report the stalled blocks -/
+def advanceTo (cfg : Config) (a : Acc) (b : Blk) (firstIrr : Option Entry) (libRef : Ref) : Acc :=
   let (hasNew, irrSeg0, stalled) := a.st.db.hasNewIrreversibleSegment cfg.fsb libRef
-  let irrSeg := match firstIrr with | some f => irrSeg0 ++ [f] | none => irrSeg0
-  if !hasNew && firstIrr.isNone then finish a else
+  let irrSeg := withFirst firstIrr irrSeg0
+  if !hasNew && firstIrr.isNone then a else
   let dbBefore := a.st.db
   let db' := (a.st.db.moveLIB libRef).purgeBeforeLIB cfg.kept
   let a := { a with st := { a.st with db := db' } }
   let a := processIrr cfg a irrSeg b.ref (fun i => (dbBefore.find i).map (·.blk))
-  let a := processStalled cfg a stalled b.ref
-  finish a
+  processStalled cfg a stalled b.ref
+
+/-- the tail of ProcessBlock: after the New events, move the LIB to the ancestor of the last sent block at its
+    declared LIB number, announce the new irreversible segment and the stalled blocks, purge -/
+def advanceAcc (cfg : Config) (a : Acc) (b : Blk) (firstIrr : Option Entry) : Acc :=
+  if a.failed then a else
+  match a.st.lastSent with
+  | none => a
+  | some last =>
+  if !a.st.db.hasLIB then a else
+  let libRef := a.st.db.blockInChain last.ref last.lib
+  if libRef.id == "" then a else advanceTo cfg a b firstIrr libRef
+
+def advanceLIB (cfg : Config) (a : Acc) (b : Blk) (firstIrr : Option Entry) : FState × List Event × Result :=
+  finish (advanceAcc cfg a b firstIrr)
+
+/-- the undo / redo / new deliveries for a block that triggers the longest chain `lc` -/
+def emitSwitch (cfg : Config) (s3 : FState) (b : Blk) (lc undos redos : List Entry) (junction : Option Ref)
+    (failAt : Option Nat) : Acc :=
+  let a : Acc := ⟨s3, [], failAt, false⟩
+  let a := if cfg.matches .undo then phase a (mkEvents .undo undos b.ref (cursorLIB s3) junction) else a
+  let a := if cfg.matches .new then phase a (mkEvents .new redos b.ref (cursorLIB s3) none) else a
+  processNew cfg a lc
+
+/-- undo/redo segments, computed BEFORE the link is added; `none` = Go would panic (entries missing) -/
+def switchSegments (cfg : Config) (s : FState) (b : Blk) (trig : Bool) : Option (List Entry × List Entry × Option Ref) :=
+  if cfg.matches .undo && trig then
+    match s.lastSent with
+    | some l => sentChainSwitch s.db l.id b.parent
+    | none => some ([], [], none)
+  else some ([], [], none)
+
+/-- what ProcessBlock decides to do with an incoming block, before any handler call -/
+inductive Plan where
+  | done (s : FState) (r : Result)            -- nothing is delivered
+  | initial (s : FState)                       -- processInitialInclusiveIrreversibleBlock
+  | switch (s3 : FState) (lc undos redos : List Entry) (junction : Option Ref) (firstIrr : Option Entry)
+
+/-- the decision once the block is linked: LIB discovery, longest chain, trigger -/
+def planLinked (cfg : Config) (s1 : FState) (b : Blk) (trig : Bool) (undos redos : List Entry) (junction : Option Ref) : Plan :=
+  -- LIB discovery
+  let hadLIB := s1.db.hasLIB
+  let s2 : FState := if hadLIB then s1 else { s1 with db := s1.db.setLIB cfg.fsb b.ref b.lib }
+  if !hadLIB && s2.db.hasLIB && s2.db.libRef.num == b.num then .initial s2
+  else
+  let firstIrr : Option Entry := if !hadLIB && s2.db.hasLIB then s2.db.find s2.db.libRef.id else none
+  if !hadLIB && !s2.db.hasLIB && cfg.hold then .done s2 .ok
+  else
+  let chain := computeLongestChain cfg s2 b
+  let s3 : FState := { s2 with cache := chain }
+  match chain with
+  | none | some [] => .done s3 .ok
+  | some lc =>
+  if !trig then .done s3 .ok else .switch s3 lc undos redos junction firstIrr
+
+/-- the decision part of `Forkable.ProcessBlock` -/
+def plan (cfg : Config) (s : FState) (b : Blk) : Plan :=
+  if b.id == b.parent then .done s .errInvalid
+  else if b.num < s.db.libRef.num && s.lastSent.isSome then .done s .ok
+  else
+  let trig := triggers cfg s b
+  if s.includeInit && s.lastSent.isNone && b.id == s.db.libRef.id then .initial s
+  else
+  match switchSegments cfg s b trig with
+  | none => .done s .errInvalid     -- Go would panic here (unreachable on well-formed states)
+  | some (undos, redos, junction) =>
+  let (db1, exists_) := s.db.addLink b
+  if exists_ then .done s .ok
+  else planLinked cfg { s with db := db1 } b trig undos redos junction
+
+/-- `Forkable.ProcessBlock` -/
+def processBlock (cfg : Config) (s : FState) (b : Blk) (failAt : Option Nat) : FState × List Event × Result :=
+  match plan cfg s b with
+  | .done s' r => (s', [], r)
+  | .initial s' => processInitialInclusive cfg s' b failAt
+  | .switch s3 lc undos redos junction firstIrr =>
+    advanceLIB cfg (emitSwitch cfg s3 b lc undos redos junction failAt) b firstIrr
 
 /-- run a whole history (no handler failures) -/
 def runHistory (cfg : Config) (s : FState) (h : List Blk) : FState × List Event :=
